@@ -23,6 +23,7 @@ type snapSpec struct {
 	N      int    `json:"n"`
 	Gen    int    `json:"gen"` // number of blocks the database is expected to hold when opened
 	Result string `json:"result"`
+	Setup  string `json:"setup,omitempty"` // abort scenarios: "fresh" or "with-older-snapshot"
 }
 
 var modeText = map[string]string{
@@ -51,9 +52,16 @@ func blockHash(h int) []byte {
 // are under test).
 func snapRecord(i int, height uint32, scripts map[string][]byte) *mRec {
 	cyc := []string{"p2pkh", "p2sh", "p2pk-compressed-02", "p2pk-uncompressed-valid", "plain-len1-first0", "plain-len0-first0", "plain-len253-first6", "plain-len33-first2", "plain-len21-first0", "p2pk-hybrid-06"}
-	counts := []int{1, 2, 3, 5, 254, 1, 2}
+	// out counts include those where a CompactSize derived from the count (2*count|coinbase,
+	// last index) changes width; ten counts x coinbase every third record: every
+	// (count, coinbase) pair occurs within 30 records. Beyond the first 300 records of a
+	// large pool only small counts are used (cost).
+	counts := []int{1, 2, 3, 5, 254, 126, 127, 253, 125, 252}
+	if i >= 300 && i < 1000000 {
+		counts = []int{1, 2, 3, 5, 1, 2, 1}
+	}
 	n := counts[i%len(counts)]
-	r := &mRec{Name: fmt.Sprint("snap-rec-", i), TxID: txid(uint32(0x1000 + i)), Height: height, Coinbase: i%5 == 0, Outs: make([]*mOut, n)}
+	r := &mRec{Name: fmt.Sprint("snap-rec-", i), TxID: txid(uint32(0x1000 + i)), Height: height, Coinbase: i%3 == 0, Outs: make([]*mOut, n)}
 	for k := 0; k < n; k++ {
 		c := cyc[(i+k)%len(cyc)]
 		r.Outs[k] = &mOut{Value: uint64(1000*i + k*546 + (i%4)*100000000), Script: scripts[c], Class: c}
@@ -161,6 +169,12 @@ func snapChild(specFile string) {
 	}
 	if dn, err := os.OpenFile("/dev/null", os.O_WRONLY, 0); err == nil {
 		os.Stdout = dn
+	}
+	switch sp.Op {
+	case "abort":
+		abortChild(&sp)
+	case "abort-verify":
+		abortVerifyChild(&sp)
 	}
 	utxo.UTXO_WRITING_TIME_TARGET = 0
 	scripts := map[string][]byte{}
